@@ -29,6 +29,10 @@
 From Coq Require Import List Arith Bool.
 Import ListNotations.
 
+(** [n] applications of [f] *)
+Fixpoint iterate {A} (n : nat) (f : A -> A) (x : A) : A :=
+  match n with 0 => x | S k => f (iterate k f x) end.
+
 Section Conc.
 Variable B : Type.                       (* bytes *)
 Variable enc : list B -> list B.         (* PNG / JPEG encoding of one strip (PIL's save) *)
